@@ -7,6 +7,8 @@
    id sequence (to_term_id), hence the same result; the model is a function, so repeated calls agree. *)
 From Coq Require Import List Bool Arith Permutation.
 From Hpotk Require Import Sort.Model Sort.Proofs.
+From Coq Require Import ZArith.
+From Hpotk Require Import Sort.Argmax.
 Import ListNotations.
 
 (* every non-empty sequence, repeats allowed: each position 0..n-1 exactly once, and indexing the
@@ -36,3 +38,17 @@ Proof. exact find_indices_perm. Qed.
 (* non-vacuity: a sequence with a repeated id through a replayed decision list *)
 Example C13_example : argsort (replay [DPair 0 2; DLast; DPair 1 0]) [7; 8; 7; 9] = Some [0; 2; 3; 1].
 Proof. vm_compute. reflexivity. Qed.
+
+(* the loop in full - similarity matrix (symmetric, zero diagonal), first-position argmax over the flattened matrix,
+   epsilon test, pops, the extra call of the arbitrary branch - driven by the stream of values the measure returns:
+   WHATEVER those values are (any measure, ties, all zero, negative, a negative epsilon), when the loop completes the
+   answer lists every position exactly once and indexing the input with it re-orders the input without losing or
+   duplicating an item *)
+Theorem C13_argsort_from_similarity_values : forall (zero eps : Z) (ids : list nat) (vals : list Z) (res : list nat),
+  argsort_vals zero eps ids vals = Some res ->
+  Permutation res (seq 0 (length ids)) /\ NoDup res /\ Permutation (map (fun i => nth i ids 0) res) ids.
+Proof. exact argsort_vals_permutation. Qed.
+
+(* numpy's argmax on a non-empty flattened matrix is one of its positions *)
+Theorem C13_argmax_in_range : forall (l : list Z), l <> [] -> argmax l < length l.
+Proof. exact argmax_in_range. Qed.
